@@ -324,6 +324,7 @@ def stepLine (s : DState) (line : String) : DState × String :=
     | some g => ({ s with game := some g.hop }, "ok")
     | none => (s, "bad")
   | "sm" :: "new" :: [m] => let sm := SM.new (m.toNat?.getD 0); ({ s with sm := sm }, smStr sm none none)
+  | ["sm", "query"] => (s, smStr s.sm none none)   -- read-only queries of the seat manager: nothing changes
   | ["sm", "hop"] => (s, smStr s.sm none none)   -- a save / restore of the seat manager (`ApplyStates` of its own state): nothing changes
   | "sm" :: rest =>
     match parseSMOp rest with
